@@ -12,6 +12,8 @@
 #define IN_FIELDS(S,A) A(int, parent, NO) A(int, flags, NO) A(int, hparent, 2 * NO) A(int, hdest, 2 * NO) A(int, herr, 2) S(int, dest)
 #include "verif_in.h"
 void move_object (object_t *item, object_t *dest);
+void destruct_object (object_t *ob);
+extern object_t *obj_list, *obj_list_destruct;
 static object_t A0, A1, A2; static int callbacks, errored;
 static object_t *OP (int i) { switch (i) { case 0: return &A0; case 1: return &A1; case 2: return &A2; default: return 0; } }
 static int idx (object_t *o) { if (o == &A0) return 0; if (o == &A1) return 1; if (o == &A2) return 2; return -1; }
@@ -55,6 +57,26 @@ static int forest_inv (void)
   return 1;
 }
 
+#ifdef MODE_DESTRUCT
+/* registries other than the inventory forest are contract stubs here (name hash, living names, heart beats, connections) */
+static int unhashed[NO], hb_off[NO], pushed;
+void remove_object_from_stack (object_t *ob) { (void) ob; }
+void close_referencing_sockets (object_t *ob) { (void) ob; }
+void remove_object_hash (object_t *ob) { if (idx (ob) >= 0) unhashed[idx (ob)]++; }
+void remove_living_name (object_t *ob) { (void) ob; }
+void free_sentence (sentence_t *s0) { (void) s0; }
+int set_heart_beat (object_t *ob, int to) { (void) to; if (idx (ob) >= 0) hb_off[idx (ob)]++; return 1; }
+void remove_interactive (object_t *ob, int d) { (void) ob; (void) d; }
+void object_save_ed_buffer (object_t *ob) { (void) ob; }
+void push_object (object_t *ob) { (void) ob; pushed++; }
+void push_number (int64_t n) { (void) n; pushed++; }
+static int on_some_inventory (object_t *x)
+{
+  int j, k; object_t *o;
+  for (j = 0; j < NO; j++) for (o = OP (j)->contains, k = 0; o && k < NO + 1; o = o->next_inv, k++) if (o == x) return 1;
+  return 0;
+}
+#endif
 void verif_on_error (void)
 {
   errored = 1;
@@ -67,7 +89,10 @@ svalue_t *apply (const char *fun, object_t *ob, int n, int origin)
   int k = callbacks++;
   (void) fun; (void) ob; (void) n; (void) origin;
   VERIF_ASSERT ("C08.move.callbacks_see_a_consistent_forest", forest_inv ());
-  if (k < 2)
+#ifndef NHAVOC
+#define NHAVOC 2
+#endif
+  if (k < NHAVOC)
     {
       int i, p[NO];
       for (i = 0; i < NO; i++) { p[i] = IN.hparent[k * NO + i]; if (IN.hdest[k * NO + i]) OP (i)->flags |= O_DESTRUCTED; }
@@ -92,6 +117,25 @@ void harness (void)
     }
   __CPROVER_assume (!(IN.flags[0] & O_DESTRUCTED));          /* efun guards refuse a destructed item */
   build_forest (IN.parent);
+#ifdef MODE_DESTRUCT
+  /* destruct_object(A0): move_or_destruct() of every content is an LPC callback (same havoc as init(): it may move anything,
+     A0 included, and destruct things); afterwards A0 is gone from every inventory and the forest is consistent */
+  obj_list = &A0; A0.next_all = &A1; A1.next_all = &A2; A2.next_all = 0; obj_list_destruct = 0;
+  (void) dest;
+  destruct_object (&A0);
+  VERIF_ASSERT ("C08.destruct.forest_invariant_after_destruct", forest_inv ());
+  if (A0.flags & O_DESTRUCTED)
+    {
+      VERIF_ASSERT ("C08.destruct.destructed_object_is_in_no_inventory", A0.super == 0 && A0.next_inv == 0 && !on_some_inventory (&A0));
+      VERIF_ASSERT ("C08.destruct.destructed_object_holds_nothing", A0.contains == 0 && A1.super != &A0 && A2.super != &A0);
+      VERIF_ASSERT ("C08.destruct.not_on_the_list_of_all_objects", obj_list != &A0 && A1.next_all != &A0 && A2.next_all != &A0);
+      VERIF_ASSERT ("C08.destruct.name_unhashed_and_heart_beat_off_once", unhashed[0] == 1 && hb_off[0] == 1);
+      VERIF_WITNESS ("destructed");
+      if (callbacks >= 1) VERIF_WITNESS ("destruct_with_move_or_destruct_callbacks");
+    }
+  VERIF_WITNESS ("end");
+  return;
+#endif
   __CPROVER_assume (IN.dest == DEST); dest = OP (DEST);
   move_object (&A0, dest);
   VERIF_ASSERT ("C08.move.forest_invariant_after_move", forest_inv ());
